@@ -385,7 +385,7 @@ def rnd_sample(I, a, k):
         for q in pos:
             I.st.assume(p.t != q.t)
         pos.append(p)
-        out.append(SV(z3.Select(arr, p.t), ek))
+        out.append(SV(z3.simplify(z3.Select(arr, p.t)), ek))
     I.st.ghost.setdefault('rand_sample', []).append(tuple(out))
     return I.st.alloc('clist', out)
 
